@@ -1,123 +1,181 @@
 ------------------------------ MODULE ResetStream ------------------------------
-(* L4 I-spec, packet level: one command exchange run through the reconnecting *)
-(* stream (ResetSequence::into_stream_with_retry): retry budget, throttle,     *)
-(* connect + registration + identity check on every fresh connection, a        *)
-(* timeout on every packet, and the rule that a connection that saw a failure  *)
-(* is dropped.  The terminal is the environment: at every frame it may         *)
-(* deliver, close the connection, send garbage, or stay silent; a fresh        *)
+(* L4 I-spec, packet level: the public calls of the terminal client as a       *)
+(* succession of command exchanges, each run through the reconnecting stream   *)
+(* (ResetSequence::into_stream_with_retry): its own retry budget, the throttle *)
+(* between attempts, connect + registration + identity check on every fresh    *)
+(* connection under one timeout, a timeout on every item of the command        *)
+(* exchange, and the rule that a connection that saw a failure is dropped.     *)
+(* The terminal is the environment: at every frame it may deliver (at once or  *)
+(* after a delay), close the connection, send garbage, or stay silent; a fresh *)
 (* connection may be refused, may stall, or may report a foreign serial        *)
-(* number.  Time is an integer advanced only to the next timer.                *)
+(* number.  Time is an integer advanced only by delays and timers.             *)
 (*                                                                             *)
-(* ConnectGuarded = TRUE models the code after the repair of D7 (the connect   *)
-(* phase is under a timeout); with FALSE a silent handshake has no successor   *)
-(* step and the liveness property Returns fails - that is the defect.          *)
+(* The module is used twice: bounded model checking (MC constants, Next) and   *)
+(* validation of traces of the real client (TraceStream picks the action that  *)
+(* each recorded event stands for; real constants, milliseconds).              *)
+(*                                                                             *)
+(* Named deliberate behaviours of the shipped code:                            *)
+(*   Abandon         a caller may stop consuming a stream between two replies  *)
+(*                   and keep the connection (get_pending, O2); the next       *)
+(*                   exchange on that connection fails on the stale reply      *)
+(*   ConnectGuarded  = TRUE is the code after the repair of D7 (the connect    *)
+(*                   phase is under a timeout); with FALSE a silent handshake  *)
+(*                   has no successor and the liveness property Returns fails  *)
 EXTENDS Naturals, FiniteSets, TLC
 
-CONSTANTS MaxAttempts,     \* retry budget (20 in the code)
-          Throttle,        \* seconds between two attempts (2)
-          Timeout,         \* per-packet timeout (60; read_card: t + 2)
-          ConnTimeout,     \* timeout of the connect phase (60)
-          Replies,         \* reply frames of the command exchange after its acknowledgement
+CONSTANTS MaxAttempts,     \* retry budget of one stream (20 in the code)
+          Throttle,        \* time between the starts of two attempts (2 s)
+          Timeout,         \* per-item timeout (60 s; read_card: t + 2 s)
+          ConnTimeout,     \* timeout of the whole connect phase (60 s)
+          Replies,         \* model checking: reply frames of an exchange after its acknowledgement
           MaxFaults,       \* how many faults the terminal may inject in one behaviour
-          ConnectGuarded
+          ConnectGuarded,
+          MaxStreams,      \* exchanges one public call may run
+          Delays,          \* model checking: reply delays the terminal may choose besides 0
+          AllowAbandon,
+          MaxCalls         \* public calls in one behaviour
 
 VARIABLES active,      \* a public call is in progress
-          attempt,     \* attempts used
-          phase,       \* "idle" | "tick" | "connect" | "reg" | "sys" | "cmd"
+          calls,       \* public calls started so far
+          streams,     \* exchanges started by this call
+          attempt,     \* attempts used by the current stream
+          phase,       \* "idle" | "between" | "tick" | "connect" | "reg" | "sys" | "cmd" | "hung"
           pos,         \* next frame of the current exchange (0 = its acknowledgement)
           conn,        \* current connection id, 0 = none
-          nconn,       \* connections opened so far
+          nconn,       \* highest connection id so far
           vetted, tainted, closed,   \* sets of connection ids
+          dirty,       \* connections on which the caller left an exchange unfinished
           now, lastTick, started,
+          connStart,   \* when the connect phase of this attempt began
+          tmo,         \* per-item timeout of the current stream
           faults,      \* faults injected so far
-          result,      \* "" | "ok" | "fail"
+          result,      \* "" | "ok" | "fail": how the last stream ended
           usedCmd      \* connections on which a command frame was sent
-vars == <<active, attempt, phase, pos, conn, nconn, vetted, tainted, closed, now, lastTick, started, faults, result, usedCmd>>
+vars == <<active, calls, streams, attempt, phase, pos, conn, nconn, vetted, tainted, closed, dirty, now, lastTick, started, connStart, tmo,
+          faults, result, usedCmd>>
 
 Max(a, b) == IF a > b THEN a ELSE b
 
-Init == /\ active = FALSE /\ attempt = 0 /\ phase = "idle" /\ pos = 0 /\ conn = 0 /\ nconn = 0
-        /\ vetted = {} /\ tainted = {} /\ closed = {} /\ now = 0 /\ lastTick = 0 /\ started = 0
-        /\ faults = 0 /\ result = "" /\ usedCmd = {}
+Init == /\ active = FALSE /\ calls = 0 /\ streams = 0 /\ attempt = 0 /\ phase = "idle" /\ pos = 0 /\ conn = 0 /\ nconn = 0
+        /\ vetted = {} /\ tainted = {} /\ closed = {} /\ dirty = {} /\ now = 0 /\ lastTick = 0 /\ started = 0 /\ connStart = 0
+        /\ tmo = Timeout /\ faults = 0 /\ result = "" /\ usedCmd = {}
 
+(* ------------------------------------------------------------ the caller *)
 \* a public call starts (also with a connection kept from a previous call)
-StartCall == /\ ~active /\ result = ""
-             /\ active' = TRUE /\ attempt' = 0 /\ phase' = "tick" /\ started' = now
-             /\ UNCHANGED <<pos, conn, nconn, vetted, tainted, closed, now, lastTick, faults, result, usedCmd>>
+StartCall == /\ ~active /\ phase = "idle" /\ calls < MaxCalls
+             /\ active' = TRUE /\ calls' = calls + 1 /\ streams' = 0 /\ phase' = "between" /\ started' = now /\ result' = ""
+             /\ UNCHANGED <<attempt, pos, conn, nconn, vetted, tainted, closed, dirty, now, lastTick, connStart, tmo, faults, usedCmd>>
 
-\* the retry stream yields the next attempt (throttled), or is exhausted
-Tick == /\ active /\ phase = "tick"
-        /\ IF attempt < MaxAttempts
-           THEN /\ attempt' = attempt + 1
-                /\ now' = IF attempt = 0 THEN now ELSE Max(now, lastTick + Throttle)
-                /\ lastTick' = IF attempt = 0 THEN now ELSE Max(now, lastTick + Throttle)
-                /\ phase' = IF conn = 0 THEN "connect" ELSE "cmd"
-                /\ pos' = 0
-                /\ UNCHANGED <<active, result>>
-           ELSE /\ active' = FALSE /\ result' = "fail" /\ phase' = "idle"
-                /\ UNCHANGED <<attempt, now, lastTick, pos>>
-        /\ UNCHANGED <<conn, nconn, vetted, tainted, closed, started, faults, usedCmd>>
+\* the call runs its next command exchange through a new retry stream with per-item timeout t
+StartStream(t) == /\ active /\ phase = "between" /\ streams < MaxStreams
+                  /\ streams' = streams + 1 /\ attempt' = 0 /\ phase' = "tick" /\ tmo' = t /\ result' = ""
+                  /\ UNCHANGED <<active, calls, pos, conn, nconn, vetted, tainted, closed, dirty, now, lastTick, started, connStart, faults, usedCmd>>
+
+\* the call returns
+Return == /\ active /\ phase = "between"
+          /\ active' = FALSE /\ phase' = "idle"
+          /\ UNCHANGED <<calls, streams, attempt, pos, conn, nconn, vetted, tainted, closed, dirty, now, lastTick, started, connStart, tmo, faults, result, usedCmd>>
+
+(* ------------------------------------------------------------ the retry stream *)
+\* the retry stream yields the next attempt (throttled: not earlier than Throttle after the previous one) ...
+TickNext == /\ active /\ phase = "tick" /\ attempt < MaxAttempts
+            /\ attempt' = attempt + 1
+            /\ now' = (IF attempt = 0 THEN now ELSE Max(now, lastTick + Throttle))
+            /\ lastTick' = now'
+            /\ connStart' = now'
+            /\ phase' = (IF conn = 0 THEN "connect" ELSE "cmd")
+            /\ pos' = 0
+            /\ UNCHANGED <<active, calls, streams, conn, nconn, vetted, tainted, closed, dirty, started, tmo, faults, result, usedCmd>>
+\* ... or is exhausted: the stream ends without a result, the caller goes on
+TickExhausted == /\ active /\ phase = "tick" /\ attempt = MaxAttempts
+                 /\ phase' = "between" /\ result' = "fail"
+                 /\ UNCHANGED <<active, calls, streams, attempt, pos, conn, nconn, vetted, tainted, closed, dirty, now, lastTick, started, connStart, tmo, faults, usedCmd>>
+Tick == TickNext \/ TickExhausted
 
 \* dropping the connection after a failure: it is closed before anything else happens
 Drop(taint) == /\ closed' = closed \cup {conn}
-               /\ tainted' = IF taint THEN tainted \cup {conn} ELSE tainted
+               /\ tainted' = (IF taint THEN tainted \cup {conn} ELSE tainted)
                /\ conn' = 0 /\ phase' = "tick" /\ pos' = 0
 
-Connect == /\ active /\ phase = "connect"
-           /\ \/ \* accepted
-                 /\ nconn' = nconn + 1 /\ conn' = nconn + 1 /\ phase' = "reg" /\ pos' = 0
-                 /\ UNCHANGED <<now, faults, closed, tainted>>
-              \/ \* refused: an error item, next attempt
-                 /\ faults < MaxFaults /\ faults' = faults + 1 /\ phase' = "tick"
-                 /\ UNCHANGED <<nconn, conn, pos, now, closed, tainted>>
-              \/ \* the connect stalls: only a guarded connect phase gets out of it
-                 /\ faults < MaxFaults /\ ConnectGuarded /\ faults' = faults + 1
-                 /\ now' = now + ConnTimeout /\ phase' = "tick"
-                 /\ UNCHANGED <<nconn, conn, pos, closed, tainted>>
-              \/ \* ... an unguarded one waits forever
-                 /\ faults < MaxFaults /\ ~ConnectGuarded /\ faults' = faults + 1 /\ phase' = "hung"
-                 /\ UNCHANGED <<nconn, conn, pos, now, closed, tainted>>
-           /\ UNCHANGED <<active, attempt, vetted, lastTick, started, result, usedCmd>>
+(* connect phase *)
+ConnectAccepted(k) == /\ active /\ phase = "connect" /\ k > nconn
+                      /\ nconn' = k /\ conn' = k /\ phase' = "reg" /\ pos' = 0
+                      /\ UNCHANGED <<active, calls, streams, attempt, vetted, tainted, closed, dirty, now, lastTick, started, connStart, tmo, faults, result, usedCmd>>
+\* refused: an error item, next attempt
+ConnectRefused == /\ active /\ phase = "connect" /\ faults < MaxFaults /\ faults' = faults + 1 /\ phase' = "tick"
+                  /\ UNCHANGED <<active, calls, streams, attempt, pos, conn, nconn, vetted, tainted, closed, dirty, now, lastTick, started, connStart, tmo, result, usedCmd>>
+\* the connect stalls: only a guarded connect phase gets out of it ...
+ConnectStall == /\ active /\ phase = "connect" /\ faults < MaxFaults /\ ConnectGuarded /\ faults' = faults + 1
+                /\ now' = connStart + ConnTimeout /\ phase' = "tick"
+                /\ UNCHANGED <<active, calls, streams, attempt, pos, conn, nconn, vetted, tainted, closed, dirty, lastTick, started, connStart, tmo, result, usedCmd>>
+\* ... an unguarded one waits forever
+ConnectHang == /\ active /\ phase = "connect" /\ faults < MaxFaults /\ ~ConnectGuarded /\ faults' = faults + 1 /\ phase' = "hung"
+               /\ UNCHANGED <<active, calls, streams, attempt, pos, conn, nconn, vetted, tainted, closed, dirty, now, lastTick, started, connStart, tmo, result, usedCmd>>
+Connect == ConnectAccepted(nconn + 1) \/ ConnectRefused \/ ConnectStall \/ ConnectHang
 
-\* one frame of an exchange arrives - or does not
-Frame(ph, last, onDone(_)) ==
-  /\ active /\ phase = ph
-  /\ \/ \* delivered
-        /\ IF pos < last THEN pos' = pos + 1 /\ UNCHANGED <<phase, conn, closed, tainted, active, result, vetted>>
-                         ELSE onDone(TRUE)
-        /\ UNCHANGED <<now, faults>>
-     \/ \* the terminal closes the connection or sends something uninterpretable: error at once
-        /\ faults < MaxFaults /\ faults' = faults + 1 /\ Drop(TRUE)
-        /\ UNCHANGED <<now, active, result, vetted>>
-     \/ \* silence: the per-packet timeout (in the handshake: the guard of the connect phase) expires
-        /\ faults < MaxFaults /\ faults' = faults + 1
-        /\ (ph = "cmd" \/ ConnectGuarded)
-        /\ now' = now + (IF ph = "cmd" THEN Timeout ELSE ConnTimeout)
-        /\ Drop(TRUE)
-        /\ UNCHANGED <<active, result, vetted>>
-     \/ \* silence during an unguarded handshake: nothing will ever wake the client up
-        /\ faults < MaxFaults /\ ph # "cmd" /\ ~ConnectGuarded /\ faults' = faults + 1 /\ phase' = "hung"
-        /\ UNCHANGED <<now, pos, conn, closed, tainted, active, result, vetted>>
-  /\ UNCHANGED <<attempt, nconn, lastTick, started>>
+InHandshake == phase \in {"reg", "sys"}
+InExchange == phase \in {"reg", "sys", "cmd"}
+\* when the client gives up waiting for the frame it is waiting for now
+Deadline == IF phase = "cmd" THEN now + tmo ELSE connStart + ConnTimeout
 
-Registration == Frame("reg", 1, LAMBDA x : /\ phase' = "sys" /\ pos' = 0
-                                           /\ UNCHANGED <<conn, closed, tainted, active, result, vetted>>)
-                /\ UNCHANGED usedCmd
-\* the identity check: a terminal with a foreign serial number is never used
-SysInfo == /\ \/ Frame("sys", 1, LAMBDA x : /\ vetted' = vetted \cup {conn} /\ phase' = "cmd" /\ pos' = 0
-                                            /\ UNCHANGED <<conn, closed, tainted, active, result>>)
-              \/ /\ active /\ phase = "sys" /\ pos = 1 /\ faults < MaxFaults /\ faults' = faults + 1     \* foreign serial
-                 /\ Drop(FALSE) /\ UNCHANGED <<now, active, result, vetted, attempt, nconn, lastTick, started>>
-           /\ UNCHANGED usedCmd
-Command == /\ Frame("cmd", Replies, LAMBDA x : /\ active' = FALSE /\ result' = "ok" /\ phase' = "idle" /\ pos' = 0
-                                                /\ UNCHANGED <<conn, closed, tainted, vetted>>)
-           /\ usedCmd' = usedCmd \cup {conn}
+(* one frame of an exchange arrives after delay d (in time): position pos is consumed *)
+\* not the last frame of a handshake exchange, any frame of the command exchange
+FrameDelivered(d) == /\ active /\ InExchange /\ (InHandshake => pos = 0)
+                     /\ now + d <= Deadline
+                     /\ now' = now + d /\ pos' = pos + 1
+                     /\ (phase = "cmd" => usedCmd' = usedCmd \cup {conn}) /\ (phase # "cmd" => UNCHANGED usedCmd)
+                     /\ UNCHANGED <<active, calls, streams, attempt, phase, conn, nconn, vetted, tainted, closed, dirty, lastTick, started, connStart, tmo, faults, result>>
+\* the completion of the registration: on to the identity check
+RegistrationDone(d) == /\ active /\ phase = "reg" /\ pos = 1 /\ now + d <= Deadline
+                       /\ now' = now + d /\ phase' = "sys" /\ pos' = 0
+                       /\ UNCHANGED <<active, calls, streams, attempt, conn, nconn, vetted, tainted, closed, dirty, lastTick, started, connStart, tmo, faults, result, usedCmd>>
+\* the terminal identifies itself with the configured serial number: the connection is vetted
+IdentityConfirmed(d) == /\ active /\ phase = "sys" /\ pos = 1 /\ now + d <= Deadline
+                        /\ now' = now + d /\ vetted' = vetted \cup {conn} /\ phase' = "cmd" /\ pos' = 0
+                        /\ UNCHANGED <<active, calls, streams, attempt, conn, nconn, tainted, closed, dirty, lastTick, started, connStart, tmo, faults, result, usedCmd>>
+\* a foreign serial number (or a refusal to identify): the terminal is never used
+ForeignSerial(d) == /\ active /\ phase = "sys" /\ pos = 1 /\ faults < MaxFaults /\ faults' = faults + 1 /\ now + d <= Deadline
+                    /\ now' = now + d /\ Drop(FALSE)
+                    /\ UNCHANGED <<active, calls, streams, attempt, nconn, vetted, dirty, lastTick, started, connStart, tmo, result, usedCmd>>
+\* the terminal closes the connection or sends something uninterpretable: error at once
+FrameBroken == /\ active /\ InExchange /\ faults < MaxFaults /\ faults' = faults + 1 /\ Drop(TRUE)
+               /\ (phase = "cmd" => usedCmd' = usedCmd \cup {conn}) /\ (phase # "cmd" => UNCHANGED usedCmd)
+               /\ UNCHANGED <<active, calls, streams, attempt, nconn, vetted, dirty, now, lastTick, started, connStart, tmo, result>>
+\* silence (or a reply later than the deadline): the per-item timeout - in the handshake the guard of the connect phase - expires
+FrameSilent == /\ active /\ InExchange /\ faults < MaxFaults /\ faults' = faults + 1
+               /\ (phase = "cmd" \/ ConnectGuarded)
+               /\ now' = Deadline /\ Drop(TRUE)
+               /\ (phase = "cmd" => usedCmd' = usedCmd \cup {conn}) /\ (phase # "cmd" => UNCHANGED usedCmd)
+               /\ UNCHANGED <<active, calls, streams, attempt, nconn, vetted, dirty, lastTick, started, connStart, tmo, result>>
+\* silence during an unguarded handshake: nothing will ever wake the client up
+HandshakeHang == /\ active /\ InHandshake /\ ~ConnectGuarded /\ faults < MaxFaults /\ faults' = faults + 1 /\ phase' = "hung"
+                 /\ UNCHANGED <<active, calls, streams, attempt, pos, conn, nconn, vetted, tainted, closed, dirty, now, lastTick, started, connStart, tmo, result, usedCmd>>
+\* a command on a connection that still holds the replies of an unfinished exchange fails on the first of them
+StaleFailure == /\ active /\ phase = "cmd" /\ pos = 0 /\ conn \in dirty
+                /\ Drop(TRUE) /\ usedCmd' = usedCmd \cup {conn}
+                /\ UNCHANGED <<active, calls, streams, attempt, nconn, vetted, dirty, now, lastTick, started, connStart, tmo, faults, result>>
 
-\* a further call after the first one returned (to observe reuse)
-Again == /\ ~active /\ result = "ok" /\ result' = "" /\ UNCHANGED <<active, attempt, phase, pos, conn, nconn, vetted, tainted, closed, now, lastTick, started, faults, usedCmd>>
+\* the exchange is over after its final reply: the stream ends, the connection is kept
+Complete == /\ active /\ phase = "cmd" /\ pos >= 2
+            /\ phase' = "between" /\ result' = "ok" /\ pos' = 0
+            /\ UNCHANGED <<active, calls, streams, attempt, conn, nconn, vetted, tainted, closed, dirty, now, lastTick, started, connStart, tmo, faults, usedCmd>>
+\* the caller stops consuming between two replies and keeps the connection (AbandonExchange)
+Abandon == /\ AllowAbandon /\ active /\ phase = "cmd" /\ pos >= 2
+           /\ phase' = "between" /\ result' = "ok" /\ pos' = 0 /\ dirty' = dirty \cup {conn}
+           /\ UNCHANGED <<active, calls, streams, attempt, conn, nconn, vetted, tainted, closed, now, lastTick, started, connStart, tmo, faults, usedCmd>>
 
-Next == StartCall \/ Tick \/ Connect \/ Registration \/ SysInfo \/ Command \/ Again
-Spec == Init /\ [][Next]_vars /\ WF_vars(Tick \/ Connect \/ Registration \/ SysInfo \/ Command)
+(* ------------------------------------------------------------ bounded model *)
+D0 == Delays \cup {0}
+Handshake == \E d \in D0 : (FrameDelivered(d) /\ InHandshake) \/ RegistrationDone(d) \/ IdentityConfirmed(d) \/ ForeignSerial(d)
+Command == \/ (\E d \in D0 : FrameDelivered(d) /\ phase = "cmd" /\ pos <= Replies /\ conn \notin dirty)
+           \/ (Complete /\ pos = Replies + 1)
+           \/ (Abandon /\ pos <= Replies)
+           \/ StaleFailure
+Faulty == ((FrameBroken \/ FrameSilent) /\ ~(phase = "cmd" /\ (pos = Replies + 1 \/ conn \in dirty))) \/ HandshakeHang
+Client == Tick \/ Connect \/ Handshake \/ Command \/ Faulty
+Caller == StartStream(Timeout) \/ Return
+Next == StartCall \/ Caller \/ Client
+Spec == Init /\ [][Next]_vars /\ WF_vars(Client) /\ WF_vars(Caller)
 
 (* ---------------------------------------------------------------- P_C09 *)
 \* command frames only ever travel on a connection that passed registration and the identity check and saw no failure
@@ -127,11 +185,12 @@ NoUseAfterTaint == tainted \subseteq closed /\ conn \notin tainted /\ conn \noti
 \* at most one connection is alive
 OneLive == conn = 0 \/ conn = nconn
 \* a completed exchange keeps its connection
-KeepOnSuccess == (result = "ok" /\ ~active) => (conn # 0 /\ conn \in vetted /\ conn \notin closed)
+KeepOnSuccess == (result = "ok" /\ phase \in {"between", "idle"}) => (conn # 0 /\ conn \in vetted /\ conn \notin closed)
 
 (* ---------------------------------------------------------------- P_C10 *)
-Budget == MaxAttempts * (Throttle + ConnTimeout + ConnTimeout + ConnTimeout + (Replies + 1) * Timeout)
+MaxDelay == CHOOSE m \in D0 : \A d \in D0 : d <= m
+Budget == MaxStreams * MaxAttempts * (Throttle + ConnTimeout + (Replies + 2) * Max(Timeout, MaxDelay))
 Bounded == active => now - started <= Budget
 Returns == active ~> ~active
-AttemptsBounded == attempt <= MaxAttempts
+AttemptsBounded == attempt <= MaxAttempts /\ streams <= MaxStreams
 =============================================================================
